@@ -302,7 +302,12 @@ class Check:
             "wall_s": round(wall, 2),
             "violations": len(reported),
         }
-        with open(os.path.join(EVIDENCE, self.prop + ".json"), "w") as f:
+        # evidence/<id>.json describes runs against /repo itself; a run against another tree
+        # (VERIF_REPO=<scratch copy>, used to try seeded changes) records next to its witnesses
+        evpath = os.path.join(EVIDENCE, self.prop + ".json")
+        if os.path.realpath(vfbuild.repo_dir()) != "/repo":
+            evpath = os.path.join(self.outdir, "evidence-%s-other-tree.json" % self.prop)
+        with open(evpath, "w") as f:
             json.dump(ev, f, indent=1, sort_keys=True)
             f.write("\n")
         if reported:
